@@ -73,11 +73,11 @@ def per_count(name, counts_quick=(0, 1, 2), counts_thorough=(0, 1, 2, 3), label=
 
 FLAGTXT = "6 literal flag words covering every RESET/LIST/MULTI combination; index, values symbolic"
 per_count("opt_getval", entry="h_opt_getval", func="cfg_opt_getval", harness="harness/store.c", cbmc=unw(6) + OOM, label=FLAGTXT, replay="replay/store_api.c",
-          props=["C09", "C10", "C18", "C02"], cost=30, **CF)
+          props=["C09", "C10", "C18", "C07", "C02"], cost=30, **CF)
 per_count("opt_setnint", entry="h_opt_setnint", func="cfg_opt_setnint", harness="harness/store.c", cbmc=unw(6) + OOM, label=FLAGTXT, replay="replay/store_api.c",
-          props=["C09", "C10", "C18", "C02"], cost=30, **CF)
+          props=["C09", "C10", "C18", "C07", "C02"], cost=30, **CF)
 per_count("opt_setnfloat_bool", entry="h_opt_setnfloat_bool", func="cfg_opt_setnfloat, cfg_opt_setnbool", harness="harness/store.c", cbmc=unw(6) + OOM,
-          label=FLAGTXT, props=["C09", "C10", "C18", "C02"], cost=40, **CF)
+          label=FLAGTXT, props=["C09", "C10", "C18", "C07", "C02"], cost=40, **CF)
 per_count("opt_setnstr", entry="h_opt_setnstr", func="cfg_opt_setnstr", harness="harness/store.c", cbmc=unw(6) + OOM, label=FLAGTXT + "; strings <= 2 bytes", replay="replay/store_str.c",
           props=["C09", "C10", "C18", "C16", "C07", "C02"], cost=60, **CF)
 U("setnstr_release", entry="h_setnstr_release", func="cfg_opt_setnstr", harness="harness/store.c", defs={"quick": ["-DNV=2"]}, cbmc=unw(6) + NOOOM + LEAK,
@@ -147,7 +147,8 @@ U("parse_step", entry="h_parse_step", cbmc=unw(6) + NOOOM + LEAK, defs={"quick":
   props=["C01", "C06", "C07", "C12", "C14", "C15", "C18", "C02", "C13", "C17", "C04", "C05"], cost=60, **PARSEC)
 U("parse_step_args", entry="h_parse_step", cbmc=unw(6) + NOOOM + LEAK, defs={"quick": ["-DCFGV_STEP_ARGS_LEAK_CASE"]},
   label="proof* (same step, restricted to states 8/9 with collected call arguments: finding unit)",
-  props=["C07", "C14"], cost=30, **PARSEC)
+  props=["C07", "C14"], not_for=["C01", "C02", "C04", "C05", "C06", "C12", "C15", "C18"],   # the same step as parse_step, kept apart for the call-argument ownership case only
+  cost=30, **PARSEC)
 U("parse_base", entry="h_parse_base", cbmc=unw(6) + NOOOM, defs={"quick": []}, expect_canary=False,
   label="proof (loop-free: entry to first loop head)", props=["C01", "C02", "C12"], cost=10, **PARSEC)
 
@@ -158,8 +159,8 @@ U("lex_dfa", tu="lexer", harness="harness/lex_dfa.c", entry="h_lex_dfa", func="f
 
 LEXTRUST = ["flex driver loop (longest match, back-up) and buffer management", "sscanf(%o/%x), getenv, isspace (C locale): assumed contracts (carriers in harness/lex_common.h)",
             "extraction of the rule actions from the generated switch (extract/extract_actions.py, must-fire checks)"]
-for _nm, _props in (("act_top", ["C03", "C02", "C06", "C08", "C15"]), ("act_dq", ["C03", "C02", "C06", "C08", "C05"]), ("act_sq", ["C03", "C02", "C06", "C08", "C05"]),
-                    ("act_env", ["C03", "C02", "C06"]), ("act_linecomment", ["C15", "C03", "C02", "C06", "C05"]), ("act_ccomment", ["C15", "C03", "C02", "C06", "C08"])):
+for _nm, _props in (("act_top", ["C03", "C02", "C06", "C08", "C15", "C05"]), ("act_dq", ["C03", "C02", "C06", "C08", "C05"]), ("act_sq", ["C03", "C02", "C06", "C08", "C05"]),
+                    ("act_env", ["C03", "C02", "C06"]), ("act_linecomment", ["C15", "C03", "C02", "C06", "C05"]), ("act_ccomment", ["C15", "C03", "C02", "C06", "C08", "C05"])):
     for _sh in range(5):
         if _nm == "act_top" and _sh not in (0, 2):
             continue        # top-level forms do not accumulate: two shapes are enough
@@ -167,6 +168,7 @@ for _nm, _props in (("act_top", ["C03", "C02", "C06", "C08", "C15"]), ("act_dq",
           defs={"quick": ["-DTOKN=4", "-DSCRATCH_SHAPE=%d" % _sh], "thorough": ["-DTOKN=6", "-DSCRATCH_SHAPE=%d" % _sh]}, cbmc=unw(50) + NOOOM,
           label="bounded(token text <= 4 bytes quick / 6 thorough over all bytes; scratch buffer shape %d of 5: unallocated / empty / 7 bytes / one byte left / full)" % _sh,
           props=_props, cost=80, trusted=LEXTRUST, replay="replay/lex_string.c" if _nm in ("act_dq", "act_sq") else None,
+          not_for=["C15"] if _nm in ("act_dq", "act_sq") else [],      # the shared obligation "returns the token kind of its form" carries the comment tag too; comments have their own units
           tiers=("quick", "thorough") if (_sh in (0, 2, 4) or (_sh == 1 and _nm == "act_linecomment")) else ("thorough",))
 
 FLEXC = dict(remove=["cfg_yy_create_buffer", "cfg_yypush_buffer_state", "cfg_yypop_buffer_state"], carriers=["carriers/flex_buffers.c"])
@@ -223,7 +225,7 @@ for _c in range(4):
 for _kind, _entry in (("getopt", "h_getopt_path"), ("getsec", "h_getsec_path")):
     U("%s_deep_c0k1n5" % _kind, entry=_entry, func="cfg_getopt_secidx (three levels)", defs={"quick": ["-DPATHN=5", "-DNSEC=1", "-DTREE_COMBO=0", "-DTREE_DEEP", "-DCFGV_FIXED_DUP=8"]},
       cbmc=unw(7) + NOOOM + LEAK, timeout=1800, label="bounded(path <= 5 bytes over all bytes; three-level tree root{a, s{b, t{c}}}, single sections; no allocation failure)",
-      props=["C11", "C09", "C07", "C02"], term_props=["C11", "C02"], cost=900, replay="replay/resolve.c", **RES)
+      props=["C11", "C09", "C07", "C02"] + (["C06"] if _kind == "getopt" else []), term_props=["C11", "C02"], cost=900, replay="replay/resolve.c", **RES)
 U("set_validate", entry="h_set_validate", func="cfg_set_validate_func, cfg_set_validate_func2", defs={"quick": ["-DPATHN=3", "-DCFGV_FIXED_DUP=8"]}, cbmc=unw(5) + NOOOM,
   remove=["cfg_getopt_array"], carriers=["carriers/cfg_getopt_array.c"], label="proof (loop-free; the schema resolver by contract)", props=["C14", "C02"], cost=10, **RES)
 U("getopt_array_leaf", entry="h_getopt_array_leaf", func="cfg_getopt_array (nested-call contract)", defs={"quick": ["-DPATHN=3", "-DCFGV_FIXED_DUP=8"]}, cbmc=unw(5) + NOOOM,
